@@ -35,6 +35,12 @@ def execute(w, op, by_name, res, tape, fp):
         _cancel_force(w, op, by_name, res, fp)
     elif k == "runlog":
         by_name["C15RunLog"].check()
+    elif k == "analyze":
+        _analyze(w, res)
+    elif k == "analyze_verdict":
+        _analyze_verdict(w, res)
+    elif k == "archive_check":
+        _archive_check(w, res)
     elif k == "stop_check":
         # C13: after any history the engine stays responsive to Stop
         # a Stop that arrives while the engine is Restarting is legitimately refused: the user retries
@@ -177,3 +183,97 @@ def _cancel_force(w, op, by_name, res, fp):
             f(what, item, target_id, ok)
     fp.append(f"{what}-{mode}-{'a' if ok else 'r'}")
     res.probe(f"{what}_{'accepted' if ok else 'rejected'}")
+
+
+def _archive_check(w, res):
+    """C39: every data row has the header's columns and reads back exactly what was archived."""
+    import csv
+    import openpectus.engine.archiver as m_arch
+    fs = w.fs
+    if fs is None:
+        raise HarnessError("archive_check without archiver profile")
+    n_files = 0
+    for path, text in sorted(fs.files.items()):
+        if "archiver-runlog" in path or not path.endswith(".txt"):
+            continue
+        n_files += 1
+        try:
+            rows = list(csv.reader(text.splitlines(keepends=True) if False else __import__("io").StringIO(text, newline=""),
+                                   delimiter=m_arch.delimiter, quoting=m_arch.quoting, escapechar=m_arch.escapechar))
+        except Exception as ex:
+            res.add("C39", "C39.archive_not_parsable", type(ex).__name__, w.tick_no, f"{path}: {ex!r}")
+            continue
+        written = fs.rows_written.get(path, [])
+        if not rows:
+            continue
+        header = rows[0]
+        for i, row in enumerate(rows[1:], start=1):
+            if len(row) != len(header):
+                res.add("C39", "C39.row_column_count_differs_from_header", "columns", w.tick_no,
+                        f"{path} row {i}: {len(row)} cells, header has {len(header)}: {row[:6]}")
+                break
+        if len(rows) != len(written):
+            res.add("C39", "C39.row_count_differs", "rows", w.tick_no,
+                    f"{path}: {len(written)} rows written, {len(rows)} rows read back")
+        for i, (got, exp) in enumerate(zip(rows, written)):
+            if got != exp:
+                j = next((k for k, (a, b) in enumerate(zip(got, exp)) if a != b), min(len(got), len(exp)))
+                col = header[j] if j < len(header) else "?"
+                res.add("C39", "C39.cell_does_not_read_back", col.split(" [")[0], w.tick_no,
+                        f"{path} row {i}: archived {exp[j] if j < len(exp) else None!r}, read back "
+                        f"{got[j] if j < len(got) else None!r} (column {col!r})")
+                break
+        res.probe("archive_rows_checked", len(rows))
+    res.probe("archive_files_checked", n_files)
+
+
+def _analyze(w, res):
+    """Run the editor's semantic analysis exactly as the LSP does, from the definition the engine publishes."""
+    import json
+    from openpectus.lsp.lsp_analysis import build_commands, build_tags
+    from openpectus.lang.exec.analyzer import SemanticCheckAnalyzer
+    from openpectus.lang.model.parser import ParserMethod, create_method_parser
+    from openpectus.protocol.serialization import serialize, deserialize
+    msg = w.builder.create_uod_info()
+    back = deserialize(json.loads(json.dumps(serialize(msg), default=lambda o: sorted(o) if isinstance(o, (set, frozenset)) else str(o))))
+    uod_def = back.uod_definition
+    pcode = "\n".join(c for _, c in w.method_lines)
+    method = ParserMethod.from_pcode(pcode)
+    program = create_method_parser(method, uod_command_names=[]).parse_method(method)
+    try:
+        an = SemanticCheckAnalyzer(build_tags(uod_def), build_commands(uod_def))
+        an.analyze(program)
+        w.analysis_errors = [(i.id, i.message) for i in an.errors]
+        w.analysis_ok = len(an.errors) == 0
+    except Exception as ex:
+        w.analysis_errors = [("exception", repr(ex))]
+        w.analysis_ok = False
+    res.probe("analysis_accepted" if w.analysis_ok else "analysis_rejected")
+
+
+CATEGORIES = [("unknown_command", ("Unknown command", "Invalid command type", "Invalid instruction", "is not supported")),
+              ("unknown_tag", ("Unknown tag", "Tag name", "not found")),
+              ("invalid_argument", ("Invalid argument", "Invalid arguments", "Failed to initialize arguments", "has invalid argument",
+                                    "Argument error", "must be")),
+              ("incompatible_units", ("incompatible", "Incompatible", "Error evaluating condition", "comparison error",
+                                      "Cannot change unit", "Cannot set unit", "not comparable", "unit"))]
+
+
+def _analyze_verdict(w, res):
+    if not getattr(w, "analysis_ok", False):
+        return
+    res.probe("accepted_method_executed")
+    errs = [e for e in w.events if e[1] == "method_error"]
+    if not errs:
+        return
+    ex = w.engine.get_error_state_exception()
+    text = f"{type(ex).__name__}: {ex} {getattr(ex, 'message', '')} {getattr(ex, 'user_message', '')} " \
+           f"{getattr(ex, '__cause__', '')!r}"
+    failed = set(w.method_state().failed_line_ids)
+    lines = [c.strip() for i, c in w.method_lines if i in failed]
+    for cat, needles in CATEGORIES:
+        if any(n in text for n in needles):
+            res.add("C20", "C20.accepted_method_failed_" + cat, (lines[0].split(":")[0] if lines else "?"), w.tick_no,
+                    f"analysis reported no error but line {lines[:1]} failed at run time: {text[:300]}")
+            return
+    res.probe("accepted_method_failed_other_cause")
